@@ -27,7 +27,7 @@ type Script struct {
 	// first send, before the discipline is created
 	PreStart bool `json:"producer_started_before_creation,omitempty"`
 	// Elem: element type the generic discipline is instantiated with: "" = int, "empty" = struct{}
-	// (zero size: order cannot be observed, only count, timing and closure), "wide" = a 264-byte struct
+	// (zero size: order cannot be observed, only count, timing and closure), "wide" = a 264-byte struct, "iface" = interface values, every third of them nil
 	Elem string `json:"element_type,omitempty"`
 }
 
@@ -93,6 +93,20 @@ func execute1(t *testing.T, s Script, leakScan bool, budget time.Duration) Trace
 		return executeT(t, s, leakScan, budget, func(int) struct{} { return struct{}{} }, func(_ struct{}, k int) int { return k })
 	case "wide":
 		return executeT(t, s, leakScan, budget, func(i int) wide { return wide{id: i} }, func(w wide, _ int) int { return w.id })
+	case "iface":
+		// an interface element type; every third element is the nil interface value, which is an
+		// element like any other
+		return executeT(t, s, leakScan, budget, func(i int) any {
+			if i%3 == 1 {
+				return nil
+			}
+			return i
+		}, func(v any, k int) int {
+			if v == nil {
+				return k
+			}
+			return v.(int)
+		})
 	}
 	return executeT(t, s, leakScan, budget, func(i int) int { return i }, func(v int, _ int) int { return v })
 }
@@ -423,7 +437,7 @@ func Gen(thorough bool) *rapid.Generator[Script] {
 			}
 		}
 		s.PreStart = rapid.IntRange(0, 2).Draw(t, "prestart") == 0
-		s.Elem = rapid.SampledFrom([]string{"", "", "", "", "empty", "wide"}).Draw(t, "elem")
+		s.Elem = rapid.SampledFrom([]string{"", "", "", "", "empty", "wide", "iface"}).Draw(t, "elem")
 		if s.Q <= 1000 && rapid.IntRange(0, 7).Draw(t, "steady") == 0 {
 			// everything up-front, several batches, a consumer that needs a fixed time per element
 			// and is still faster than the limit (output back-pressure inside a batch)
